@@ -157,10 +157,11 @@ def _run(chk, scratch, thorough):
     if thorough:
         for i in range(40):
             rounds.append({"n": (2, 3, 4, 8, 12, 16)[i % 6], "same_gtf": i % 3 == 0, "fresh_home": i % 2 == 0,
-                           "delay": (0.0, 0.02, 0.05, 0.2)[i % 4], "shared_db": i % 5 == 4, "create_delay": 1.5 if i % 8 == 6 else 0})
+                           "delay": (0.0, 0.02, 0.05, 0.2)[i % 4], "shared_db": i % 5 == 4, "create_delay": 1.5 if i % 8 == 6 else 0,
+                           "unindexed_ref": i % 3 == 0 and i % 2 == 1})
     else:
         rounds = [{"n": 8, "same_gtf": False, "fresh_home": True, "delay": 0.05},
-                  {"n": 8, "same_gtf": True, "fresh_home": True, "delay": 0.02},
+                  {"n": 8, "same_gtf": True, "fresh_home": True, "delay": 0.02, "unindexed_ref": True},
                   {"n": 6, "same_gtf": False, "fresh_home": False, "delay": 0.2},
                   {"n": 12, "same_gtf": False, "fresh_home": True, "delay": 0.0},
                   {"n": 4, "same_gtf": False, "fresh_home": False, "delay": 0.05},
@@ -193,6 +194,11 @@ def _run(chk, scratch, thorough):
         if not rd["fresh_home"]:
             # pre-populate the cache with a finished run of input 15
             r0 = pipeline.run(os.path.join(pool, "in15"), os.path.join(rdir, "pre"), threads=1, home=home)
+        if rd.get("unindexed_ref"):
+            # the runs of the round name the same reference file, which has no index yet (it is built next to the file by whoever comes
+            # first; run 0 starts 0.4 s early and is pre-empted for five seconds right after it has opened the index for writing)
+            os.makedirs(os.path.join(rdir, "ref"))
+            shutil.copy(os.path.join(pool, "in0", "g.fa"), os.path.join(rdir, "ref", "g.fa"))
         start_at = time.time() + 1.5
         ev = os.path.join(rdir, "ev")
 
@@ -202,13 +208,17 @@ def _run(chk, scratch, thorough):
             out = os.path.join(rdir, "out%d" % j)
             # a tiny shim delays the start until the common release time
             extra = ["--genedb_output", os.path.join(rdir, "shared_db")] if rd.get("shared_db") else []
-            r = runner.run_isoquant(pipeline.std_args(d, out, threads=1, extra=extra), home, mon=["cache"],
+            a_ = pipeline.std_args(d, out, threads=1, extra=extra)
+            if rd.get("unindexed_ref"):
+                a_[a_.index("-r") + 1] = os.path.join(rdir, "ref", "g.fa")
+            r = runner.run_isoquant(a_, home, mon=["cache"],
                                     cfg={"cache_seed": chk.seed * 100 + ri, "cache_max_delay": rd["delay"],
                                          # rounds with "create_delay": run 0 starts 0.4 s before the others and is pre-empted for that long right
                                          # after it has CREATED a file of the cache folder (the file exists and is still empty)
                                          "cache_create_delay": rd.get("create_delay", 0) if j == 0 else 0,
+                                         "index_write_delay": 5.0 if rd.get("unindexed_ref") and j == 0 else 0,
                                          "mkdir_delay_paths": [os.path.join(rdir, "shared_db")]}, events=ev,
-                                    env_extra={"VERIF_RUN_ID": str(j), "VERIF_START_AT": str(start_at - (0.4 if j == 0 and rd.get("create_delay") else 0))}, cwd=rdir)
+                                    env_extra={"VERIF_RUN_ID": str(j), "VERIF_START_AT": str(start_at - (0.4 if j == 0 and (rd.get("create_delay") or rd.get("unindexed_ref")) else 0))}, cwd=rdir)
             return j, k, out, r
         results = runner.parallel(one, list(range(rd["n"])), workers=rd["n"])
         desc = "round %d: %d runs, %s annotation, %s HOME, max delay %.2fs" % (
@@ -218,6 +228,8 @@ def _run(chk, scratch, thorough):
         if n_over >= 2:
             overlapping_rounds += 1
             chk.nontrivial.add(("round", ri, rd["n"], rd["same_gtf"], rd["fresh_home"], rd["delay"]))
+        if rd.get("unindexed_ref"):
+            chk.count("reference_index_writes_observed_while_other_runs_started", len([e for e in evs if e["k"] == "index_open_w"]))
         bad_loads = [e for e in evs if e["k"] == "cache_load" and not e["ok"]]
         parse_errors += len(bad_loads)
         wit = dict(rd)
